@@ -20,11 +20,12 @@ CONFIG = {'assumptions': [
     'codes per table, a present DW_AT_sibling designates the true next sibling in a reference form, index forms '
     'resolvable (base attribute in the root entry, index inside the table), references designate an entry',
     'the DIE/CU caches are modelled by recomputation (their transparency is C10)']}
-LEVEL = {'text': 'Machine-checked theorems (Props/C04.v, 37, all closed under the global context), universally quantified over '
+LEVEL = {'text': 'Machine-checked theorems (Props/C04.v, 39, all closed under the global context), universally quantified over '
                  'well-formed units (Spec unit_wf: v2-5, DWARF32/64, address size 4/8, both byte orders, all header kinds, '
                  'arbitrary abbreviation codes / unknown numbers, every LEB128 in any valid encoding) placed at any offset with '
                  'any following bytes: (1) the live Dwarf_dw_form table = the form table of the standard in all 32 '
-                 'configurations, header / abbreviation structs and name dicts as the standard; (2) unit header round trips '
+                 'configurations, header / abbreviation structs, name dicts and the form-name tuples written inline in the tree walk / '
+                 'reference / value code (read from the source by ast) as the standard; (2) unit header round trips '
                  '(v2-v4 CU, six v5 kinds, v4 type unit) and abbreviation table round trip + lookup; (3) every operand class, '
                  'DW_FORM_indirect chains of any length, implicit_const; one entry at any offset = expected offset, size, code, '
                  'tag, child flag, attributes (name, final form, raw value, offset, indirection length); parsing at each '
